@@ -77,3 +77,24 @@ Proof.
   destruct (skip data wt); cbn in *; auto.
 Qed.
 
+
+Lemma read_field_data_safe site wt rest1 :
+  match read_field_data site wt rest1 with
+  | Ok (fdata, rest2, k) =>
+    k <= len rest1 /\ len rest2 = len rest1 - k /\ len fdata <= len rest2
+    /\ (length fdata <= length rest2)%nat /\ (length rest2 <= length rest1)%nat
+  | Err => True
+  | _ => False
+  end.
+Proof.
+  unfold read_field_data. destruct (wt =? WTLength).
+  - destruct (read_varuint rest1) as [l k] eqn:Ev.
+    pose proof (read_varuint_n _ _ _ Ev) as Hk.
+    destruct (k <=? 0)%Z eqn:Hk0; [exact I|]. apply Z.leb_gt in Hk0.
+    destruct (go_drop_good site (Z.to_N k) rest1 ltac:(llia)) as (rest2 & E2 & L2 & LL2).
+    rewrite E2. cbn [bind].
+    destruct (len rest2 <? l) eqn:Hl; [exact I|]. apply N.ltb_ge in Hl.
+    destruct (go_take_good site l rest2 Hl) as (fdata & E3 & L3 & LL3).
+    rewrite E3. cbn [bind]. repeat split; llia.
+  - repeat split; llia.
+Qed.
